@@ -39,6 +39,7 @@ package traversal
 //@   callsite (dht/containers.AddrMaybeIdsByDistance).Add only-contacts-that-pass-the-node-filter: nodeok(op.input.NodeFilter, n)
 //@   ensures inv: opinv(op) && wheld(op.mu)
 //@   ensures frontier-only-grows-by-n: forall y types.AddrMaybeId :: has(op.unqueried, y) == (old(has(op.unqueried, y)) || (result == nil && y == n))
+//@   ensures every-addition-wakes-the-run-loop: result == nil ==> count("call:(*github.com/anacrolix/chansync.BroadcastCond).Broadcast") == 1
 //@   ensures added-only-if-new-and-passing: result == nil ==> !(akey(n.Addr) in op.queried) && nodeok(op.input.NodeFilter, n)
 
 //@ func (*dht/traversal.Operation).AddNode
@@ -141,6 +142,7 @@ package traversal
 //@   lockowns op.mu grants its-own-slot-of-the-in-flight-count: op.outstanding >= 1
 //@   modifies op.outstanding, op.cond.ch
 //@   ensures one-fewer-in-flight: op.outstanding == old(op.outstanding) - 1
+//@   ensures giving-the-slot-back-wakes-the-run-loop: count("call:(*github.com/anacrolix/chansync.BroadcastCond).Broadcast") == 1
 //@   ensures unlocked: !held(op.mu)
 
 // the watcher: it waits for the query's context or for the lookup to be stopped, and in the second case cancels
